@@ -6,7 +6,10 @@ cd /verif
 if ! git merge --no-edit -q agent-$A >/dev/null 2>&1; then
   # generated / per-run files: always keep ours
   for f in $(git diff --name-only --diff-filter=U); do
-    case $f in evidence/C15.json|coq/_CoqProject|replays/C15/*|harness/go.mod) git checkout --ours -- $f; git add $f;; esac
+    case $f in
+      coq/_CoqProject|harness/go.mod) git rm -q --cached $f 2>/dev/null || true;;
+      evidence/C15.json|replays/C15/*) git checkout --ours -- $f; git add $f;;
+    esac
   done
   if [ -n "$(git diff --name-only --diff-filter=U)" ]; then echo "VERIF MERGE CONFLICT"; git diff --name-only --diff-filter=U; exit 1; fi
   git commit -q --no-edit
